@@ -9,6 +9,7 @@ CONSTANTS
   RDelims <- ExpRDelims
   MaxParts = 1
   MaxOps = 1
+  MaxRetry = 1
   ContentSel = {6}
   ProfileSel = {1}
   UseJson = TRUE
@@ -24,6 +25,7 @@ CONSTANTS
 INVARIANT ParseOfEncodeIsForm
 INVARIANT LimitsExactAtThreshold
 INVARIANT ContentExact
+INVARIANT SizeFailureSticks
 INVARIANT CorruptionIsErrorOrWellDefined
 PROPERTY MCBufferLimitExact
 PROPERTY MCProgress
